@@ -359,7 +359,11 @@ class IntegrityChecker(object):
         cues = []
         lends = len(self.ds)
         if "index" in self.ds:
-            if not np.all(self.ds["index"] == np.arange(1, lends + 1)):
+            index = np.asarray(self.ds["index"])
+            # An index of the wrong length cannot enumerate the events
+            # (comparing arrays of different lengths raises an exception).
+            if (index.shape != (lends,)
+                    or not np.all(index == np.arange(1, lends + 1))):
                 cues.append(ICue(
                     msg="The index feature is not enumerated correctly",
                     level="violation",
